@@ -75,6 +75,17 @@ Fixpoint notv (t : ty) : bool :=
   | _ => true
   end.
 
+(* TypeVars of a source read as "unknown" (like a missing annotation): what the code does with them *)
+Fixpoint vars_unknown (t : ty) : ty :=
+  match t with
+  | TVar _ _ _ => TNoAnn
+  | TUnion l => TUnion (map vars_unknown l)
+  | TGen o l => TGen o (map vars_unknown l)
+  | TAnnot p m => TAnnot (vars_unknown p) m
+  | TArray e => TArray (vars_unknown e)
+  | _ => t
+  end.
+
 Definition is_top (t : ty) : bool := is_any t || is_noann t || is_unres t.
 (* a source that the reference does not decompose *)
 Definition atomic (a : ty) : bool :=
